@@ -317,12 +317,12 @@ def value_rows(body, sym, facts, local, depth=2, fmt=None):
                     # a row block several edges lead into (`a || b` arms, `A | B =>`) is one row per way in
                     for base in path_facts(body, sym, facts, i):
                         fs = list(base)
-                        have = {f["text"] for f in fs}
+                        have = {_fkey(f) for f in fs}
                         for pt in ch.values():
                             if pt[0] >= 0:
                                 for f in facts_at(body, sym, facts, pt[0]):
-                                    if f["text"] not in have:
-                                        have.add(f["text"])
+                                    if _fkey(f) not in have:
+                                        have.add(_fkey(f))
                                         fs.append(f)
                         if infeasible(fs):
                             continue
@@ -361,6 +361,15 @@ def value_rows(body, sym, facts, local, depth=2, fmt=None):
     if fmt is not None and depth == 2:
         return [(g, fmt(v) if not isinstance(v, str) else v) for g, v in out]
     return out
+
+
+def _fkey(f):
+    """identity of a fact: the expression (structural - two calls of one function are two values) and the value"""
+    try:
+        hash(f["expr"])
+        return (f["expr"], str(f["val"]))
+    except TypeError:
+        return (f["text"], str(f["val"]))
 
 
 def _gtexts(fs, fmt, ords=None):
